@@ -6,6 +6,7 @@ import (
 	"go/constant"
 	"go/token"
 	"go/types"
+	"golang.org/x/tools/go/ssa"
 	"strings"
 
 	"golang.org/x/tools/go/types/typeutil"
@@ -509,6 +510,7 @@ func checkC11(p *core.Program, r *core.Report) {
 		"that the stored dimensions are the compiled ones (C12 O12.3)."
 	r.Rule("O11.1", "writer and reader section sequences coincide (fields, order, width, endianness)")
 	r.Rule("O11.2", "every I/O error in the writers and the reader propagates on every path")
+	r.Rule("O11.4", "the reader refuses a file only on read/decode failures (or defensive tests on their results), never on a condition over the decoded depth / batch size")
 	r.Rule("O11.3", "CLI: persisting commands write the right system with a ProvingSystem writer to the --output file; reading commands use the loader")
 	r.Trusted = append(r.Trusted, "gnark WriteTo/WriteRawTo output is accepted by UnsafeReadFrom/ReadFrom in both encodings", "encoding/binary")
 	r.NotDecided = append(r.NotDecided, "equality of keys and constraint system after reload", "gnark's own encoders/decoders")
@@ -658,6 +660,8 @@ func checkC11(p *core.Program, r *core.Report) {
 	}
 	r.Floor("I/O error sites", 8)
 
+	// O11.4: the reader adds no precondition on the stored dimensions
+	checkReaderRefusals(p, r, append(append([]flow.FuncUnit{}, readers...), readerParts...))
 	// reader: section objects constructed for BN254
 	for _, rd := range append(append([]flow.FuncUnit{}, readers...), readerParts...) {
 		info := rd.Pkg.TypesInfo
@@ -861,4 +865,122 @@ func checkC11(p *core.Program, r *core.Report) {
 	r.Count("CLI read sites", nRead)
 	r.Floor("CLI write sites", 1)
 	r.Floor("CLI read sites", 1)
+}
+
+// checkReaderRefusals decides O11.4: the reader refuses a file only because a read or a section decoder failed, or through a
+// defensive test on what such a call returned (a byte count, an error). An error it constructs itself under a condition on
+// the *decoded header values* (the stored depth or batch size) is a precondition that some correctly written system may not
+// meet — that system then does not reload, although writer and reader agree on the format.
+func checkReaderRefusals(p *core.Program, r *core.Report, readers []flow.FuncUnit) {
+	for _, u := range readers {
+		fd, ok := u.Node.(*ast.FuncDecl)
+		if !ok {
+			continue
+		}
+		obj, _ := u.Pkg.TypesInfo.Defs[fd.Name].(*types.Func)
+		fn := p.SSA.FuncValue(obj)
+		if fn == nil || fn.Blocks == nil || len(fn.Params) == 0 {
+			continue
+		}
+		recv := fn.Params[0]
+		var bad []string
+		pos := ""
+		for _, b := range fn.Blocks {
+			ret, ok := b.Instrs[len(b.Instrs)-1].(*ssa.Return)
+			if !ok || len(ret.Results) == 0 {
+				continue
+			}
+			ev := ret.Results[len(ret.Results)-1]
+			if !isErrorType(ev.Type()) {
+				continue
+			}
+			for _, leaf := range errorLeaves(ev, b) {
+				if !leaf.fresh {
+					continue
+				}
+				if why := headerValueGuard(leaf.block, recv); why != "" {
+					if pos == "" {
+						pos = p.Pos(leaf.pos)
+					}
+					bad = append(bad, fmt.Sprintf("the error constructed at %s is returned under a condition on %s", p.Pos(leaf.pos), why))
+				}
+			}
+		}
+		cn := u.Name + ": refuses only on read/decode failures"
+		if len(bad) > 0 {
+			r.Violation("O11.4", cn, pos, "%s — a file that the writers produce for such a system is rejected on reload", strings.Join(uniqStrings(bad), "; "))
+		} else {
+			r.OK("O11.4", cn, p.Pos(fn.Pos()), "no self-constructed error depends on the decoded depth or batch size")
+		}
+	}
+}
+
+// headerValueGuard: a condition that decides whether b runs reads a field of the receiver or a decoded integer.
+func headerValueGuard(b *ssa.BasicBlock, recv ssa.Value) string {
+	for d := b.Idom(); d != nil; d = d.Idom() {
+		iff, ok := d.Instrs[len(d.Instrs)-1].(*ssa.If)
+		if !ok {
+			continue
+		}
+		t, f := d.Succs[0], d.Succs[1]
+		onT := (t == b || t.Dominates(b)) && !t.Dominates(d)
+		onF := (f == b || f.Dominates(b)) && !f.Dominates(d)
+		if onT == onF {
+			continue
+		}
+		if why := readsHeaderValue(iff.Cond, recv, map[ssa.Value]bool{}); why != "" {
+			return why
+		}
+	}
+	return ""
+}
+
+func readsHeaderValue(v ssa.Value, recv ssa.Value, seen map[ssa.Value]bool) string {
+	if seen[v] {
+		return ""
+	}
+	seen[v] = true
+	switch x := v.(type) {
+	case *ssa.BinOp:
+		if isErrorType(x.X.Type()) || isErrorType(x.Y.Type()) {
+			return ""
+		}
+		if w := readsHeaderValue(x.X, recv, seen); w != "" {
+			return w
+		}
+		return readsHeaderValue(x.Y, recv, seen)
+	case *ssa.UnOp:
+		if x.Op == token.MUL {
+			if fa, ok := x.X.(*ssa.FieldAddr); ok && fa.X == recv {
+				return "the decoded field " + structFieldName(fa.X.Type(), fa.Field)
+			}
+			if al, ok := x.X.(*ssa.Alloc); ok {
+				for _, ref := range *al.Referrers() {
+					if st, ok := ref.(*ssa.Store); ok && st.Addr == ssa.Value(al) {
+						if w := readsHeaderValue(st.Val, recv, seen); w != "" {
+							return w
+						}
+					}
+				}
+			}
+			return ""
+		}
+		return readsHeaderValue(x.X, recv, seen)
+	case *ssa.Convert:
+		return readsHeaderValue(x.X, recv, seen)
+	case *ssa.Phi:
+		for _, e := range x.Edges {
+			if w := readsHeaderValue(e, recv, seen); w != "" {
+				return w
+			}
+		}
+	case *ssa.Call:
+		if callee := x.Common().StaticCallee(); callee != nil && strings.Contains(callee.String(), "encoding/binary") && strings.Contains(callee.Name(), "Uint") {
+			return "a decoded header word (" + callee.Name() + ")"
+		}
+		if x.Common().IsInvoke() && strings.HasPrefix(x.Common().Method.Name(), "Uint") {
+			return "a decoded header word (" + x.Common().Method.Name() + ")"
+		}
+	}
+	return ""
 }
